@@ -151,6 +151,62 @@ type c19S23 struct {
 	A []c19Iface `@@*`
 }
 
+// self-referential slice and pointer types as field types
+type c19SelfSlice []c19SelfSlice
+type c19SelfPtr *c19SelfPtr
+type c19SelfStructSlice []struct {
+	Kids c19SelfStructSlice `@@*`
+	X    string             `@Ident`
+}
+
+type c19S26 struct {
+	A c19SelfSlice `@@`
+}
+type c19S27 struct {
+	A c19SelfSlice `@Ident`
+}
+type c19S28 struct {
+	A c19SelfPtr `@@`
+}
+type c19S29 struct {
+	A c19SelfPtr `@Ident?`
+	B string     `@Ident`
+}
+type c19S30 struct {
+	A c19SelfStructSlice `@@*`
+}
+
+// a union whose member captures, with @@, an interface type that is parsed by a ParseTypeWith function
+type c19Val interface{ isC19Val() }
+type c19ValNum struct{ N string }
+
+func (c19ValNum) isC19Val() {}
+
+type c19UM1 struct {
+	V c19Val `"-" @@`
+}
+type c19UM2 struct {
+	A string `@Ident`
+}
+type c19U2 interface{ isC19U2() }
+
+func (c19UM1) isC19U2() {}
+func (c19UM2) isC19U2() {}
+
+type c19S24 struct {
+	X []c19U2 `@@*`
+}
+type c19S25 struct { // the custom-parsed type used from an ordinary production reachable only through a union member
+	W *c19UM1 `@@`
+}
+
+func c19ParseVal(lex *lexer.PeekingLexer) (c19Val, error) {
+	if t := lex.Peek(); t.EOF() {
+		return nil, participle.NextMatch
+	}
+	return c19ValNum{N: lex.Next().Value}, nil
+}
+
 func c19B[T any](opts ...participle.Option) func() error {
 	return func() error { _, err := participle.Build[T](opts...); return err }
 }
@@ -188,6 +244,17 @@ var c19StaticCases = []struct {
 	{"union declared twice", c19B[c19S23](participle.Union[c19Iface](c19M1{}), participle.Union[c19Iface](&c19M2{})), false},
 	{"union with a non-struct member", c19B[c19S23](participle.Union[c19Iface](c19M1{}), participle.Union[fmt.Stringer](lexer.Position{})), false},
 	{"union on a non-interface type", c19B[c19S23](participle.Union[c19M1](c19M1{})), false},
+	{"union member with an @@ field of a ParseTypeWith type (Union option first)", c19B[c19S24](participle.Union[c19U2](c19UM1{}, c19UM2{}), participle.ParseTypeWith(c19ParseVal)), true},
+	{"union member with an @@ field of a ParseTypeWith type (ParseTypeWith option first)", c19B[c19S24](participle.ParseTypeWith(c19ParseVal), participle.Union[c19U2](c19UM1{}, c19UM2{})), true},
+	{"union as root whose member uses a ParseTypeWith type", c19B[c19U2](participle.Union[c19U2](c19UM1{}, c19UM2{}), participle.ParseTypeWith(c19ParseVal)), true},
+	{"ParseTypeWith type used from an ordinary production", c19B[c19S25](participle.ParseTypeWith(c19ParseVal)), true},
+	{"ParseTypeWith type used without being registered", c19B[c19S25](), false},
+	{"@@ into a slice type whose element type is itself (type L []L)", c19B[c19S26](), false},
+	{"@Ident into a slice type whose element type is itself", c19B[c19S27](), false},
+	{"@@ into a pointer type that points to itself (type P *P)", c19B[c19S28](), false},
+	{"@Ident? into a pointer type that points to itself", c19B[c19S29](), false},
+	{"@@* into a named slice of an anonymous struct that contains the named slice", c19B[c19S30](), false},
+	{"union with a nil member", c19B[c19S23](participle.Union[c19Iface](c19M1{}, nil)), false},
 	{"Elide of an unknown token type", c19B[c19S11](participle.Elide("Nope")), false},
 	{"Map on an unknown token type", c19B[c19S11](participle.Upper("Nope")), false},
 	{"CaseInsensitive on an unknown token type", c19B[c19S11](participle.CaseInsensitive("Nope")), false},
